@@ -429,6 +429,158 @@ def install():
     EM.process_event_queue = process_event_queue
 
 
+# ---- delay managers (C13) --------------------------------------------------------------------------------
+_DELAY_RECS = {}     # id(manager) -> DelayRec   (the manager is kept alive by the record)
+
+
+class DelayRec:
+    """All public calls on ONE DelayManager and every callback it ran, with times in 0.1 ms units."""
+
+    def __init__(self, mgr):
+        self.mgr = mgr
+        self.t0 = None
+        self.names = {}
+        self.lines = []
+        self.depth = 0
+        self.bad = None
+
+    def t(self):
+        now = self.mgr.machine.clock.get_time()
+        if self.t0 is None:
+            self.t0 = now
+        v = int(round((now - self.t0) * 10000))
+        if v > 2000000000 or v < 0:
+            self.bad = 'time-range'
+            v = 0
+        return v
+
+    def n(self, name):
+        if name not in self.names:
+            self.names[name] = 'n%d' % (len(self.names) + 1)
+        return self.names[name]
+
+    def pend(self):
+        return sorted(self.n(k) for k in self.mgr.delays)
+
+    def log(self, **kw):
+        if len(self.lines) < MAXLINES:
+            kw['t'] = self.t()
+            kw['pend'] = self.pend()
+            self.lines.append(kw)
+        else:
+            self.bad = self.bad or 'too-long'
+
+    def emit(self, final):
+        if not self.lines:
+            return
+        if self.bad:
+            _STATE['stats']['d:tainted:' + self.bad] += 1
+            if self.bad != 'too-long':
+                return
+        lines = list(self.lines)
+        if final and not self.bad:
+            lines.append({'op': 'sync', 't': self.t(), 'pend': self.pend()})
+        emit({'ev': lines}, 'd')
+
+
+def _digest(kwargs):
+    items = []
+    for k in sorted(kwargs):
+        v = kwargs[k]
+        items.append('%s=%s' % (k, repr(v) if isinstance(v, (int, float, str, bool, type(None))) else type(v).__name__))
+    return hashlib.sha1('|'.join(items).encode()).hexdigest()[:6] if items else '-'
+
+
+def install_delays():
+    from mpf.core import delays as D
+    DM = D.DelayManager
+    o_add, o_remove, o_addif, o_reset, o_clear, o_runnow = DM.add, DM.remove, DM.add_if_doesnt_exist, DM.reset, DM.clear, DM.run_now
+
+    def rec_of(mgr):
+        r = _DELAY_RECS.get(id(mgr))
+        if r is None or r.mgr is not mgr:
+            r = DelayRec(mgr)
+            _DELAY_RECS[id(mgr)] = r
+        return r
+
+    def add(self, ms, callback, name=None, **kwargs):
+        r = rec_of(self)
+        cell = {}
+
+        def verif_delay_cb(**kw):
+            r.log(op='fire', n=r.n(cell.get('name')), arg=_digest(kw))
+            saved, r.depth = r.depth, 0         # what the callback calls is user code again (run_now runs it nested)
+            try:
+                return callback(**kw)
+            finally:
+                r.depth = saved
+        outer = r.depth == 0
+        r.depth += 1
+        try:
+            if not name:
+                import uuid
+                name = str(uuid.uuid4())
+            cell['name'] = name
+            res = o_add(self, ms, verif_delay_cb, name, **kwargs)
+        finally:
+            r.depth -= 1
+        if outer:
+            try:
+                d = int(round(float(ms) * 10))
+            except (TypeError, ValueError):
+                d, r.bad = 0, 'ms-type'
+            if abs(d) > 2000000000:
+                d, r.bad = 0, 'time-range'
+            r.log(op='add', n=r.n(name), d=d, arg=_digest(kwargs))
+        return res
+
+    def wrap(orig, op, has_ms):
+        def method(self, *a, **kw):
+            r = rec_of(self)
+            outer = r.depth == 0
+            if outer and op == 'runnow':
+                r.log(op='runnow', n=r.n(a[0] if a else kw.get('name')))
+            r.depth += 1
+            try:
+                res = orig(self, *a, **kw)
+            finally:
+                r.depth -= 1
+            if outer and op != 'runnow':
+                if has_ms:
+                    ms = a[0] if a else kw.get('ms')
+                    name = a[2] if len(a) > 2 else kw.get('name')
+                    extra = {k: v for k, v in kw.items() if k not in ('ms', 'callback', 'name')}
+                    try:
+                        d = int(round(float(ms) * 10))
+                    except (TypeError, ValueError):
+                        d, r.bad = 0, 'ms-type'
+                    if abs(d) > 2000000000:
+                        d, r.bad = 0, 'time-range'
+                    r.log(op=op, n=r.n(name), d=d, arg=_digest(extra))
+                elif op == 'remove':
+                    r.log(op='remove', n=r.n(a[0] if a else kw.get('name')))
+                else:
+                    r.log(op=op)
+            return res
+        return method
+
+    DM.add = add
+    DM.remove = wrap(o_remove, 'remove', False)
+    DM.add_if_doesnt_exist = wrap(o_addif, 'addif', True)
+    DM.reset = wrap(o_reset, 'reset', True)
+    DM.clear = wrap(o_clear, 'clear', False)
+    DM.run_now = wrap(o_runnow, 'runnow', False)
+
+
+def flush_delays():
+    for r in list(_DELAY_RECS.values()):
+        try:
+            r.emit(True)
+        except Exception:  # pylint: disable=broad-except
+            _STATE['stats']['d:tainted:emit'] += 1
+    _DELAY_RECS.clear()
+
+
 def drain():
     """Segments collected in memory (when no output directory is configured)."""
     m = _STATE.pop('mem_bus', [])
@@ -443,6 +595,7 @@ def stats():
 def pytest_configure(config):       # noqa: D103
     del config
     install()
+    install_delays()
 
 
 def pytest_runtest_setup(item):     # noqa: D103
@@ -462,6 +615,7 @@ def flush_open_tasks():
 def pytest_runtest_teardown(item):     # noqa: D103
     del item
     flush_open_tasks()
+    flush_delays()
 
 
 def pytest_sessionfinish(session, exitstatus):      # noqa: D103
